@@ -93,6 +93,7 @@ def main(argv=None):
     errors, violations, known_hits, inconclusive = [], [], [], []
     tot = dict(paths=0, q_unsat=0, q_sat=0, q_unknown=0, solver_s=0.0, forks=0, aborted=0, val=0, div_sites=0, assumed_feasible=0)
     proved, covers, files, assumes, samples = {}, {}, set(), set(), []
+    soft = {}
     for r in results:
         for k in ('paths', 'q_unsat', 'q_sat', 'q_unknown', 'solver_s', 'forks', 'aborted', 'div_sites', 'assumed_feasible'):
             tot[k] += r.get(k, 0) or 0
@@ -101,6 +102,8 @@ def main(argv=None):
             proved[r['harness'] + ':' + k] = proved.get(r['harness'] + ':' + k, 0) + v
         for k, v in (r.get('covers') or {}).items():
             covers[r['harness'] + ':' + k] = covers.get(r['harness'] + ':' + k, 0) + v
+        for k, v in (r.get('soft_unknown') or {}).items():
+            soft[r['harness'] + ':' + k] = soft.get(r['harness'] + ':' + k, 0) + v
         files.update(r.get('files') or [])
         assumes.update(r.get('assumes') or [])
         for s in (r.get('samples') or [])[:2]:
@@ -177,6 +180,7 @@ def main(argv=None):
             'branch_sides_explored_without_feasibility_verdict': tot['assumed_feasible'],
             'stubs': sorted({s for h in hs for s in h.stubs}),
             'outside_claim': sorted({s for h in hs for s in h.outside}),
+            'inconclusive_fp_obligations': soft,
             'jobs': len(jobs), 'harness_errors': errors[:10], 'inconclusive': inconclusive[:10],
             'known_findings_hit': sorted(seen_known),
         },
